@@ -3,7 +3,7 @@ from __future__ import annotations
 
 import itertools
 
-OUTCOMES = ["ok", "s1", "s2", "s3", "s4", "s5", "s6", "s7", "s128", "s255", "tid", "ctl"]  # s7/s128/s255: status bytes the table does not define
+OUTCOMES = ["ok", "s1", "s2", "s3", "s4", "s5", "s6", "s7", "s128", "s255", "tid", "ctl", "empty"]  # empty: success with a zero-length body (reads only)  # s7/s128/s255: status bytes the table does not define
 READ_SETS = [[9], [9, 10], [2, 9, 10], [9, 13], [13, 41]]
 WRITE_SETS = [[9], [12], [9, 10], [9, 12], [9, 10, 12], [13], [9, 13], [14, 10], [13, 9, 14]]
 READABLE = {2, 9, 10, 13, 41}
@@ -25,6 +25,8 @@ def _script(opcode, ids, vec):
             sc[(opcode, i)] = {"tid_delta": 7}
         elif o == "ctl":
             sc[(opcode, i)] = {"control": 0x00}
+        elif o == "empty" and opcode == 0x03:
+            sc[(opcode, i)] = {"empty": True}
     return sc
 
 
@@ -35,6 +37,14 @@ def case_coap_read(p):
     rig = CoapRig(seed=p.get("seed", 0))
     try:
         rig.run(rig.pairing.list_accessories_and_characteristics())
+        # history: values the accessory REJECTED were written first, so whatever the controller keeps locally differs from what the accessory holds
+        wr = [(aid(i), i, VALS[i]) for i in ids if i in VALS and i in READABLE]
+        if wr and p.get("prior_write", True):
+            rig.acc.script = {(0x02, i): {"status": 6} for _, i, _ in wr}
+            try:
+                rig.run(rig.pairing.put_characteristics(wr))
+            except Exception:  # noqa: BLE001
+                pass
         for vec in p["vectors"]:
             n += 1
             rig.acc.script = _script(0x03, ids, vec)
@@ -51,6 +61,10 @@ def case_coap_read(p):
                 if o == "ok":
                     if r is None or r.get("value") != EXPECT[i] or r.get("status"):
                         out.append(("coap:read-value-wrong-or-attributed-to-other-item", dict(det, key=i, got=r)))
+                elif o == "empty":
+                    # the accessory sent no value: anything but "no value" (or a per-item error) is a value it never sent
+                    if r is None or (not r.get("status") and r.get("value") not in (None, b"", "")):
+                        out.append(("coap:read-reports-a-value-the-accessory-did-not-send", dict(det, key=i, got=repr(r))))
                 else:
                     if r is None or "value" in r or not r.get("status"):
                         out.append(("coap:failed-item-not-reported-as-per-item-error", dict(det, key=i, got=repr(r))))
@@ -125,7 +139,7 @@ def plan(tier):
         vecs = list(itertools.product(alph, repeat=len(ids)))
         work.append(("coap_read", {"ids": ids, "replies": vecs[:1], "vectors": vecs}))
     for ids in WRITE_SETS:
-        alph = OUTCOMES if len(ids) <= (2 if tier == "quick" else 3) else ["ok", "s6", "tid", "ctl"]
+        alph = [o for o in OUTCOMES if o != "empty"] if len(ids) <= (2 if tier == "quick" else 3) else ["ok", "s6", "tid", "ctl"]
         vecs = list(itertools.product(alph, repeat=len(ids)))
         work.append(("coap_write", {"ids": ids, "replies": vecs[:1], "vectors": vecs}))
     return work
